@@ -332,6 +332,7 @@ class Decls:
         self.funs: dict[str, str] = {}
         self.defs: dict[str, str] = {}
         self.counter = 0
+        self.axioms: list[str] = []      # closed facts about declared constants (each a full SMT term)
         self.str_lits: dict[str, T] = {}
 
     def fresh(self, base: str, sort: str) -> T:
